@@ -258,6 +258,38 @@ def run(ctx, rep, rid="R-C05-blank"):
         pushes.append(c.bb)
         inst = "remove_oscat_comment|write #%d" % n
         arg = c.args[1] if len(c.args) > 1 else None
+        if nm == "extend" and arg is not None:
+            # `out.extend(repeat(<1-byte constant>).take(c.len_utf8()))`: as many one-byte characters as the current character has bytes
+            def _chain(op, depth=6):
+                names, cur = [], op_place(op)
+                consts = []
+                take_n = None
+                while cur is not None and depth > 0:
+                    depth -= 1
+                    d = b.single_def(b.root(cur)[0])
+                    if not d or d[0] != "call":
+                        break
+                    last = (d[2].u or d[2].callee or "").split("::")[-1]
+                    names.append(last)
+                    if last == "take" and len(d[2].args) > 1:
+                        take_n = d[2].args[1]
+                    if last in ("repeat", "repeat_n") and d[2].args:
+                        consts.append(d[2].args[0])
+                        if last == "repeat_n" and len(d[2].args) > 1:
+                            take_n = d[2].args[1]
+                    cur = op_place(d[2].args[0]) if d[2].args else None
+                return names, consts, take_n
+            names, consts, take_n = _chain(arg)
+            k = None
+            if consts and consts[0][0] == "c" and len(consts[0]) > 3 and "int" in consts[0][3]:
+                k = int(consts[0][3]["int"])
+            tp = op_place(take_n) if take_n is not None else None
+            td = b.single_def(tp[0]) if tp is not None and not tp[1] else None
+            n_is_width = bool(td and td[0] == "call" and (td[2].callee or "").endswith("len_utf8") and td[2].args and is_c(op_place(td[2].args[0])))
+            if k is not None and utf8_width(k) == 1 and n_is_width and set(names) <= {"take", "repeat", "repeat_n", "into_iter"}:
+                if k != 10:
+                    r.ok(inst, loc_str(b.f, c.loc), "one 1-byte constant per byte of the character (repeat(..).take(c.len_utf8()))")
+                    continue
         if nm != "push" or arg is None:
             r.finding(inst + "|not-a-char-push", loc_str(b.f, c.loc), "%s inside the character loop: width of what is written is not the width of the character" % nm)
             continue
